@@ -4,9 +4,13 @@
 //
 // Case line (tab separated):
 //   case id cfg methods ops scheds obs
-//     cfg     ext;sttl;maxBytes;expiration;storeHeaders;cacheControl;kg;eg;iv;nx
+//     cfg     ext;sttl;maxBytes;expiration;storeHeaders;cacheControl;kg;eg;iv;nx;sy
+//             (sy: inside concurrent groups the storage parks the calling request at the end of every Get of
+//              an entry key – a schedule point at the storage boundary; injected storage: in its Get,
+//              internal/memory: through the verif hook cache.VerifSetMemoryYield)
 //     methods hex list (cfg.Methods as configured; "-" = default)
-//     ops     op|op|…      op = grp;dt;method;keyMat;cc;inv;skip;expGen;status;body;ctype;cenc;headers;hdelay
+//     ops     op|op|…      op = grp;dt;method;keyMat;cc;inv;skip;expGen;status;body;ctype;cenc;headers;hdelay;err
+//                          (err = 1: the origin handler returns fiber.NewError(status, body))
 //     scheds  "-" or  grp:t.t.t/grp:t.t   (release order of the threads of a concurrent group)
 //     obs     o|o|…        o  = x;status;body;ctype;cenc;headers;ran;held   |  panic | deadlock | skipped
 //
@@ -21,6 +25,7 @@ import (
 	"io"
 	"os"
 	"os/exec"
+	"runtime"
 	"runtime/debug"
 	"sort"
 	"strconv"
@@ -43,6 +48,7 @@ type cfgIn struct {
 	expiration          int // seconds; 0 = default, <0 = middleware disabled
 	storeHeaders, ccOut bool
 	kg, eg, iv, nx      bool // custom KeyGenerator / ExpirationGenerator / CacheInvalidator / Next configured
+	sy                  bool // storage yield: park at the end of Storage.Get(entry key) inside concurrent groups
 	methods             []string
 }
 
@@ -55,6 +61,7 @@ type opIn struct {
 	body, ctype, cenc       string
 	hdrs                    [][2]string
 	hdelay                  int
+	err                     bool // the origin handler fails with fiber.NewError(status, body)
 }
 
 // ---------------------------------------------------------------------------------------------
@@ -64,7 +71,7 @@ func hx(s string) string { return gen.Hex(s) }
 
 func encCfg(c cfgIn) string {
 	return strings.Join([]string{gen.B(c.ext), gen.B(c.sttl), gen.I(c.maxBytes), gen.I(c.expiration), gen.B(c.storeHeaders),
-		gen.B(c.ccOut), gen.B(c.kg), gen.B(c.eg), gen.B(c.iv), gen.B(c.nx)}, ";")
+		gen.B(c.ccOut), gen.B(c.kg), gen.B(c.eg), gen.B(c.iv), gen.B(c.nx), gen.B(c.sy)}, ";")
 }
 
 func encHdrs(h [][2]string) string {
@@ -84,7 +91,7 @@ func encOp(o opIn) string {
 		eg = gen.I(o.expGen)
 	}
 	return strings.Join([]string{gen.I(o.grp), gen.I(o.dt), hx(o.method), hx(o.keyMat), hx(o.cc), gen.B(o.inv), gen.B(o.skip), eg,
-		gen.I(o.status), hx(o.body), hx(o.ctype), hx(o.cenc), encHdrs(o.hdrs), gen.I(o.hdelay)}, ";")
+		gen.I(o.status), hx(o.body), hx(o.ctype), hx(o.cenc), encHdrs(o.hdrs), gen.I(o.hdelay), gen.B(o.err)}, ";")
 }
 
 func encOps(ops []opIn) string {
@@ -145,11 +152,11 @@ func bit(s string) bool {
 
 func decCfg(s, methods string) cfgIn {
 	f := strings.Split(s, ";")
-	if len(f) != 10 {
+	if len(f) != 11 {
 		bad("cfg fields")
 	}
 	c := cfgIn{ext: bit(f[0]), sttl: bit(f[1]), maxBytes: atoi(f[2]), expiration: atoi(f[3]), storeHeaders: bit(f[4]),
-		ccOut: bit(f[5]), kg: bit(f[6]), eg: bit(f[7]), iv: bit(f[8]), nx: bit(f[9])}
+		ccOut: bit(f[5]), kg: bit(f[6]), eg: bit(f[7]), iv: bit(f[8]), nx: bit(f[9]), sy: bit(f[10])}
 	if c.maxBytes < 0 {
 		bad("maxBytes")
 	}
@@ -165,11 +172,11 @@ func decOps(s string) []opIn {
 	var ops []opIn
 	for _, e := range strings.Split(s, "|") {
 		f := strings.Split(e, ";")
-		if len(f) != 14 {
+		if len(f) != 15 {
 			bad("op fields")
 		}
 		o := opIn{grp: atoi(f[0]), dt: atoi(f[1]), method: unhex(f[2]), keyMat: unhex(f[3]), cc: unhex(f[4]), inv: bit(f[5]),
-			skip: bit(f[6]), expGen: -1, status: atoi(f[8]), body: unhex(f[9]), ctype: unhex(f[10]), cenc: unhex(f[11]), hdelay: atoi(f[13])}
+			skip: bit(f[6]), expGen: -1, status: atoi(f[8]), body: unhex(f[9]), ctype: unhex(f[10]), cenc: unhex(f[11]), hdelay: atoi(f[13]), err: bit(f[14])}
 		if f[7] != "n" {
 			o.expGen = atoi(f[7])
 		}
@@ -246,6 +253,9 @@ func validate(c cfgIn, ops []opIn, scheds map[int][]int) {
 		if c.eg != (o.expGen >= 0) || (!c.iv && o.inv) || (!c.nx && o.skip) {
 			bad("callback flags")
 		}
+		if o.err && (o.ctype != "" || o.cenc != "" || len(o.hdrs) != 0 || o.body == "" || o.status < 400) {
+			bad("error op")
+		}
 		names := map[string]bool{}
 		for _, kv := range o.hdrs {
 			if !isHdr(kv[0]) || names[kv[0]] || strings.ContainsAny(kv[1], "\r\n") || kv[1] == "" || kv[1] != strings.TrimSpace(kv[1]) {
@@ -311,16 +321,28 @@ type memStore struct {
 	mu   sync.Mutex
 	m    map[string]sEntry
 	sttl bool
+	w    *world // for the storage yield point
 }
 
 func (s *memStore) Get(k string) ([]byte, error) {
+	v := s.get(k)
+	// schedule point at the storage boundary: the value has been read, the caller has not seen it yet
+	if s.w != nil && s.w.cfg.sy && !strings.HasSuffix(k, "_body") {
+		if id, ok := s.w.curOp(); ok {
+			s.w.yield(id, "G")
+		}
+	}
+	return v, nil
+}
+
+func (s *memStore) get(k string) []byte {
 	s.mu.Lock()
 	defer s.mu.Unlock()
 	e, ok := s.m[k]
 	if !ok || (e.expAt != 0 && time.Now().Unix() >= e.expAt) {
-		return nil, nil
+		return nil
 	}
-	return append([]byte(nil), e.val...), nil
+	return append([]byte(nil), e.val...)
 }
 func (s *memStore) Set(k string, v []byte, ttl time.Duration) error {
 	s.mu.Lock()
@@ -366,6 +388,28 @@ type world struct {
 	ran   []bool
 	gate  []chan struct{} // non-nil while the op is part of a running concurrent group
 	park  []string        // where the thread is parked ("" = not parked)
+	goid  map[uint64]int  // goroutine → op it is serving (concurrent groups only)
+}
+
+// curGoid parses the current goroutine's id out of its stack header ("goroutine 123 [running]:").
+func curGoid() uint64 {
+	var buf [64]byte
+	n := runtime.Stack(buf[:], false)
+	f := strings.Fields(string(buf[:n]))
+	if len(f) < 2 {
+		return 0
+	}
+	id, _ := strconv.ParseUint(f[1], 10, 64)
+	return id
+}
+
+// curOp: the op served by the calling goroutine, when it belongs to a running concurrent group
+func (w *world) curOp() (int, bool) {
+	g := curGoid()
+	w.mu.Lock()
+	defer w.mu.Unlock()
+	id, ok := w.goid[g]
+	return id, ok
 }
 
 func (w *world) yield(id int, where string) {
@@ -389,12 +433,22 @@ func opID(c fiber.Ctx) int {
 }
 
 func build(c cfgIn, ops []opIn) *world {
-	w := &world{cfg: c, ops: ops, ran: make([]bool, len(ops)), gate: make([]chan struct{}, len(ops)), park: make([]string, len(ops))}
+	w := &world{cfg: c, ops: ops, ran: make([]bool, len(ops)), gate: make([]chan struct{}, len(ops)), park: make([]string, len(ops)),
+		goid: map[uint64]int{}}
 	conf := cache.Config{MaxBytes: uint(c.maxBytes), Expiration: time.Duration(c.expiration) * time.Second,
 		StoreResponseHeaders: c.storeHeaders, CacheControl: c.ccOut, Methods: c.methods}
 	if c.ext {
-		w.st = &memStore{m: map[string]sEntry{}, sttl: c.sttl}
+		w.st = &memStore{m: map[string]sEntry{}, sttl: c.sttl, w: w}
 		conf.Storage = w.st
+	}
+	// default path: the same schedule point at the end of internal/memory's Get (verif hook in /repo)
+	cache.VerifSetMemoryYield(nil)
+	if !c.ext && c.sy {
+		cache.VerifSetMemoryYield(func(string) {
+			if id, ok := w.curOp(); ok {
+				w.yield(id, "G")
+			}
+		})
 	}
 	if c.kg {
 		conf.KeyGenerator = func(x fiber.Ctx) string {
@@ -425,6 +479,9 @@ func build(c cfgIn, ops []opIn) *world {
 		w.mu.Unlock()
 		if o.hdelay > 0 {
 			time.Sleep(time.Duration(o.hdelay) * time.Second)
+		}
+		if o.err {
+			return fiber.NewError(o.status, o.body)
 		}
 		x.Status(o.status)
 		if o.ctype != "" {
@@ -552,7 +609,14 @@ func runHistory(c cfgIn, ops []opIn, scheds map[int][]int) string {
 			if !started[t] {
 				started[t] = true
 				go func(t int) {
+					gid := curGoid()
+					w.mu.Lock()
+					w.goid[gid] = i + t
+					w.mu.Unlock()
 					r := w.serve(i + t)
+					w.mu.Lock()
+					delete(w.goid, gid)
+					w.mu.Unlock()
 					fmu.Lock()
 					res[t], finished[t] = r, true
 					fmu.Unlock()
@@ -573,20 +637,33 @@ func runHistory(c cfgIn, ops []opIn, scheds map[int][]int) string {
 		for _, t := range scheds[o.grp] {
 			release(t)
 		}
-		// drain: lowest unfinished thread first; bounded (a thread needs at most 3 releases)
+		// drain: the lowest thread that can be released (not started, or parked at a yield point; a
+		// thread blocked on the middleware's mutex continues by itself once the holder leaves); bounded
+		// (a thread needs at most 4 releases: start, K, G, H)
+		releasable := func(t int) bool {
+			fmu.Lock()
+			f := finished[t]
+			fmu.Unlock()
+			if f {
+				return false
+			}
+			if !started[t] {
+				return true
+			}
+			w.mu.Lock()
+			defer w.mu.Unlock()
+			return w.park[i+t] != ""
+		}
 		for round := 0; round < 4*n+4; round++ {
-			all := true
+			any := false
 			for t := 0; t < n; t++ {
-				fmu.Lock()
-				f := finished[t]
-				fmu.Unlock()
-				if !f {
-					all = false
+				if releasable(t) {
+					any = true
 					release(t)
 					break
 				}
 			}
-			if all {
+			if !any {
 				break
 			}
 		}
